@@ -1129,6 +1129,34 @@ impl<'a> Interp<'a> {
                         if b != c.orig {
                             c.state = CState::Damaged;
                             *self.out.faults.entry("content.through_hard_link".to_string()).or_insert(0) += 1;
+                            // ... and so is every other file that shares that inode (earlier hard-link extractions)
+                            for (p, old) in self.dests.clone() {
+                                if let Ok(now) = std::fs::read(&p) {
+                                    if now != old && now == b {
+                                        self.dests.insert(p, now);
+                                    }
+                                }
+                            }
+                        }
+                    }
+                }
+            }
+        }
+        if got_ok && op.starts_with("copy") && !self.deferred && pre != FileState::Absent {
+            // a copy the caller directed onto an existing file rewrites that file's inode: every other name of it
+            // (hard links made by earlier extractions) shows the new bytes - the caller's doing
+            for (p, old) in self.dests.clone() {
+                if p != to {
+                    if let Ok(now) = std::fs::read(&p) {
+                        if now != old {
+                            use std::os::unix::fs::MetadataExt;
+                            let same_inode = match (std::fs::metadata(&p), std::fs::metadata(&to)) {
+                                (Ok(a), Ok(b)) => a.ino() == b.ino() && a.dev() == b.dev(),
+                                _ => false,
+                            };
+                            if same_inode {
+                                self.dests.insert(p, now);
+                            }
                         }
                     }
                 }
@@ -1803,6 +1831,16 @@ impl<'a> Interp<'a> {
                     let frag = b[from..to].to_vec();
                     b.splice(at..at, frag);
                     std::fs::write(&path, &b)
+                }
+                "append_hashed_text" => {
+                    // a line with a correct checksum over an arbitrary text (what another writer of the format might emit)
+                    use std::io::Write;
+                    if let Some(d) = path.parent() {
+                        std::fs::create_dir_all(d)?;
+                    }
+                    let text = st["text"].as_str().unwrap_or("");
+                    let mut f = std::fs::OpenOptions::new().create(true).append(true).open(&path)?;
+                    f.write_all(format!("\n{}\t{}", hash::sha256_hex(text.as_bytes()), text).as_bytes())
                 }
                 "append_record" => {
                     use std::io::Write;
